@@ -121,6 +121,29 @@ class LGen(kgen.Gen):
         hfs = [2 * f[0], 2 * f[0] + 1, 2 * f[1], 2 * f[2], 2 * f[3]]
         return self.do("@AddC 0 " + " ".join(map(str, self.r.shuffle(hfs)))).result()
 
+    # ------------------------------------------------------------ a closed cell on the SECOND of two parallel edges
+    def cell_on_parallel_edge(self):
+        """a tetrahedron whose edge a-b is the second of two parallel edges a-b: every lookup that goes through
+        find_halfedge(a,b) (which answers the FIRST one) instead of the cell's own definition misses it"""
+        base = self.st().nv
+        self.add_vertices(4)
+        a, b, c, d = base, base + 1, base + 2, base + 3
+        if self.r.chance(1, 2): a, b = b, a
+        self.do("@AddE %d %d 0" % (a, b))
+        second = self.do("@AddE %d %d 1" % (a, b)).result()
+        if not isinstance(second, int): return None
+        E = {(a, b): 2 * second, (b, a): 2 * second + 1}
+        for x, y in ((a, c), (a, d), (b, c), (b, d), (c, d)):
+            e = self.do("@AddE %d %d 0" % (x, y)).result()
+            if not isinstance(e, int): return None
+            E[(x, y)] = 2 * e; E[(y, x)] = 2 * e + 1
+        hfs = []
+        for cyc in ((a, b, c), (a, c, d), (a, d, b), (b, d, c)):
+            f = self.do("@AddF 1 " + " ".join(str(E[(cyc[i], cyc[(i + 1) % 3])]) for i in range(3))).result()
+            if not isinstance(f, int): return None
+            hfs.append(2 * f)
+        return self.do("@AddC 1 " + " ".join(map(str, self.r.shuffle(hfs)))).result()
+
     # ------------------------------------------------------------ degenerate meshes
     def run_degen(self, nops):
         r = self.r
@@ -153,6 +176,7 @@ class LGen(kgen.Gen):
             if s.F[f]: self.do("@AddF 0 " + " ".join(map(str, s.F[f] + [s.F[f][0]])))
         self.debris()
         if r.chance(1, 2): self.self_adjacent_cell()
+        if r.chance(2, 3): self.cell_on_parallel_edge()
         self.query(force=True)
         # a cell nearby, then deferred deletions that leave definitions behind
         base = self.st().nv
